@@ -1880,3 +1880,150 @@ Proof.
   apply sort_members_keys in H2. destruct H2 as [-> _].
   apply isort_order_independent; [apply dir_le_total|apply dir_le_trans|apply dir_le_antisym|exact Hnd|exact Hp].
 Qed.
+
+(* --- how many: at_most is an upper limit, reached whenever enough members match --- *)
+Lemma select_count t p am ty m r :
+  select_members t p am ty m = Some r ->
+  let matches := zlen (filter (keepb t p ty) m) in
+  match limit am (zlen m) with
+  | None => zlen r = matches
+  | Some n => zlen r = Z.min (Z.max 0 n) matches
+  end.
+Proof.
+  intros H matches. apply select_spec in H. subst r matches.
+  destruct (limit am (zlen m)) as [n|]; simpl; [|reflexivity].
+  unfold zlen. rewrite firstn_length. lia.
+Qed.
+
+Lemma select_all_when_limit_large t p am ty m r :
+  select_members t p am ty m = Some r ->
+  match limit am (zlen m) with None => True | Some n => zlen (filter (keepb t p ty) m) <= n end ->
+  r = filter (keepb t p ty) m.
+Proof.
+  intros H Hl. apply select_spec in H. subst r. apply take_lim_all. exact Hl.
+Qed.
+
+(* --- the observation after each operation determines the observable state (so comparing
+   observations in the correspondence compares every set of the pool and every attribute) --- *)
+Definition enc_seg (x : option (list Z)) : list Z := match x with None => [-4] | Some m => -5 :: m end.
+Definition enc_segs (l : list (option (list Z))) : list Z := flat_map enc_seg l.
+Definition starts_neg (l : list Z) : Prop := match l with [] => True | x :: _ => x < 0 end.
+Definition pos_seg (x : option (list Z)) : Prop := match x with None => True | Some m => Forall (fun a => 0 < a) m end.
+
+Lemma enc_segs_starts_neg l : starts_neg (enc_segs l).
+Proof. destruct l as [|[m|] t]; simpl; lia. Qed.
+
+Lemma split_pos m : forall m' rest rest',
+  Forall (fun a => 0 < a) m -> Forall (fun a => 0 < a) m' -> starts_neg rest -> starts_neg rest' ->
+  m ++ rest = m' ++ rest' -> m = m' /\ rest = rest'.
+Proof.
+  induction m as [|x t IH]; intros [|y t'] rest rest' Hm Hm' Hr Hr' H; simpl in H.
+  - split; [reflexivity|exact H].
+  - subst rest. inversion Hm'; subst. simpl in Hr. lia.
+  - subst rest'. inversion Hm; subst. simpl in Hr'. lia.
+  - inversion H. subst y. inversion Hm; subst. inversion Hm'; subst.
+    destruct (IH t' rest rest') as [-> ->]; try assumption. split; reflexivity.
+Qed.
+
+Lemma enc_segs_inj l : forall l',
+  length l = length l' -> Forall pos_seg l -> Forall pos_seg l' -> enc_segs l = enc_segs l' -> l = l'.
+Proof.
+  induction l as [|x t IH]; intros [|y t'] Hlen Hp Hp' H; simpl in Hlen; try discriminate; [reflexivity|].
+  inversion Hp as [|? ? Hx Ht]; subst. inversion Hp' as [|? ? Hy Ht']; subst.
+  unfold enc_segs in H. simpl in H. fold (enc_segs t) in H. fold (enc_segs t') in H.
+  destruct x as [m|], y as [m'|]; simpl in H.
+  - inversion H as [H1].
+    destruct (split_pos m m' (enc_segs t) (enc_segs t') Hx Hy (enc_segs_starts_neg t) (enc_segs_starts_neg t') H1) as [-> Hrest].
+    f_equal. apply IH; [lia|assumption|assumption|exact Hrest].
+  - inversion H.
+  - inversion H.
+  - inversion H as [H1]. f_equal. apply IH; [lia|assumption|assumption|exact H1].
+Qed.
+
+Definition pos_pool (p : pool) : Prop := forall s m, slot_get s p = Some m -> Forall (fun a => 0 < a) m.
+
+Lemma obs_pool_enc p : obs_pool p = enc_segs (map (fun s => slot_get s p) slots).
+Proof. reflexivity. Qed.
+
+Lemma map_eq_pointwise {A B} (f g : A -> B) l : map f l = map g l -> forall x, In x l -> f x = g x.
+Proof.
+  induction l as [|a t IH]; intros H x Hx; [destruct Hx|].
+  simpl in H. inversion H. destruct Hx as [<-|Hx]; [assumption|apply IH; assumption].
+Qed.
+
+Lemma obs_pool_inj p p' :
+  pos_pool p -> pos_pool p' -> obs_pool p = obs_pool p' ->
+  forall s, In s slots -> slot_get s p = slot_get s p'.
+Proof.
+  intros Hp Hp' H. rewrite !obs_pool_enc in H. apply enc_segs_inj in H.
+  - apply map_eq_pointwise. exact H.
+  - rewrite !map_length. reflexivity.
+  - apply Forall_forall. intros x Hx. apply in_map_iff in Hx. destruct Hx as [s [<- _]].
+    unfold pos_seg. destruct (slot_get s p) eqn:E; [eapply Hp; exact E|exact I].
+  - apply Forall_forall. intros x Hx. apply in_map_iff in Hx. destruct Hx as [s [<- _]].
+    unfold pos_seg. destruct (slot_get s p') eqn:E; [eapply Hp'; exact E|exact I].
+Qed.
+
+Definition enc_attr (x : option Z) : list Z := match x with Some v => [1; v] | None => [0; 0] end.
+Definition obs_agent (ag : agent) : list Z := flat_map (fun n => enc_attr (assoc n (a_attrs ag))) attr_names.
+
+Lemma obs_table_cons e t : obs_table (e :: t) = obs_agent (snd e) ++ obs_table t.
+Proof. reflexivity. Qed.
+
+Lemma enc_attr_inj x y r r' : enc_attr x ++ r = enc_attr y ++ r' -> x = y /\ r = r'.
+Proof.
+  destruct x, y; simpl; intros H; inversion H; subst; split; reflexivity.
+Qed.
+
+Lemma obs_agent_inj ag ag' r r' :
+  obs_agent ag ++ r = obs_agent ag' ++ r' ->
+  (forall n, In n attr_names -> assoc n (a_attrs ag) = assoc n (a_attrs ag')) /\ r = r'.
+Proof.
+  unfold obs_agent, attr_names. simpl flat_map. rewrite !app_nil_r, <- !app_assoc. intros H.
+  apply enc_attr_inj in H. destruct H as [H0 H]. apply enc_attr_inj in H. destruct H as [H1 H].
+  apply enc_attr_inj in H. destruct H as [H2 H]. split; [|exact H].
+  intros n [<-|[<-|[<-|[]]]]; assumption.
+Qed.
+
+Lemma obs_table_inj t : forall t',
+  length t = length t' -> obs_table t = obs_table t' ->
+  Forall2 (fun e e' => forall n, In n attr_names -> assoc n (a_attrs (snd e)) = assoc n (a_attrs (snd e'))) t t'.
+Proof.
+  induction t as [|e r IH]; intros [|e' r'] Hlen H; simpl in Hlen; try discriminate; [constructor|].
+  rewrite !obs_table_cons in H. apply obs_agent_inj in H. destruct H as [Ha Hr].
+  constructor; [exact Ha|]. apply IH; [lia|exact Hr].
+Qed.
+
+Lemma obs_state_inj st st' :
+  pos_pool (st_pool st) -> pos_pool (st_pool st') -> length (st_tbl st) = length (st_tbl st') ->
+  obs_state st = obs_state st' ->
+  (forall s, In s slots -> members st s = members st' s) /\
+  Forall2 (fun e e' => forall n, In n attr_names -> assoc n (a_attrs (snd e)) = assoc n (a_attrs (snd e')))
+          (st_tbl st) (st_tbl st').
+Proof.
+  intros Hp Hp' Hlen H. unfold obs_state in H. inversion H as [H1]. clear H.
+  rewrite !obs_pool_enc in H1.
+  (* split at the -6 marker: the pool part consists of markers -4/-5 and positive ids *)
+  assert (forall l l' r r', length l = length l' -> Forall pos_seg l -> Forall pos_seg l' ->
+            enc_segs l ++ -6 :: r = enc_segs l' ++ -6 :: r' -> l = l' /\ r = r') as Hsplit.
+  { induction l as [|x t IH]; intros [|y t'] r r' Hl Hf Hf' He; simpl in Hl; try discriminate.
+    - simpl in He. inversion He. split; reflexivity.
+    - inversion Hf as [|? ? Hx Ht]; subst. inversion Hf' as [|? ? Hy Ht']; subst.
+      unfold enc_segs in He. simpl in He. fold (enc_segs t) in He. fold (enc_segs t') in He.
+      rewrite <- !app_assoc in He.
+      assert (forall q, starts_neg (enc_segs q ++ -6 :: r)) as Hs1 by (intros [|[m|] q]; simpl; lia).
+      assert (forall q, starts_neg (enc_segs q ++ -6 :: r')) as Hs2 by (intros [|[m|] q]; simpl; lia).
+      destruct x as [m|], y as [m'|]; simpl in He; inversion He as [He1].
+      + destruct (split_pos m m' _ _ Hx Hy (Hs1 t) (Hs2 t') He1) as [-> Hrest].
+        destruct (IH t' r r') as [-> ->]; try assumption; [lia|]. split; reflexivity.
+      + destruct (IH t' r r') as [-> ->]; try assumption; [lia|]. split; reflexivity. }
+  apply Hsplit in H1.
+  - destruct H1 as [Hpool Htbl]. split.
+    + intros s Hs. unfold members. revert s Hs. apply map_eq_pointwise. exact Hpool.
+    + apply obs_table_inj; assumption.
+  - rewrite !map_length. reflexivity.
+  - apply Forall_forall. intros x Hx. apply in_map_iff in Hx. destruct Hx as [s [<- _]].
+    unfold pos_seg. destruct (slot_get s (st_pool st)) eqn:E; [eapply Hp; exact E|exact I].
+  - apply Forall_forall. intros x Hx. apply in_map_iff in Hx. destruct Hx as [s [<- _]].
+    unfold pos_seg. destruct (slot_get s (st_pool st')) eqn:E; [eapply Hp'; exact E|exact I].
+Qed.
